@@ -270,9 +270,9 @@ theorem sigInv_reachable {H : Table} (hH : TableSignals H) (st : MState) (hp : s
   * NOT PROVED: SCAN with a TYPE option (it loads cold records; needs an index invariant).
   * NOT PROVED: SAVE (`Store.flush` rewrites the persistence bookkeeping of every record; that it leaves the
     logical content alone is C11 / C12's subject, not shown again here).
-  * UNREACHABLE REGION, left out: GEOADD with NX / XX as argument 1 (`T4.geoAddOpt`) - the handler then reads the
-    option word as a longitude and replies an error before `execCommand`; the closure it would build calls
-    `GeoAddNX`, which creates the key without signalling (FINDINGS.md).
+  * (GEOADD with NX / XX as argument 1 would build a closure around `GeoAddNX`, which creates the key without
+    signalling - FINDINGS.md D-8; `geoadd_option_words_never_run` shows the handler never gets that far, so
+    nothing is excluded there.)
   * everything else — all other 110-odd commands and option combinations of the four tables, GEOADD and the
     GEO reads included (`table4_signals`) — signals every key it changes: `fullSafe_signals`.
 -/
@@ -818,8 +818,8 @@ end gate
 section table4
 open NodisVerif.Proofs.C08Step.T4 NodisVerif.Proofs.GeoReads
 
-/-- CLIENT, CONFIG, INFO, QUIT, GEOADD (outside the unreachable NX / XX region), GEOHASH, GEOPOS, GEODIST,
-    GEORADIUS, GEORADIUSBYMEMBER: every closure signals every key whose logical content it changes -/
+/-- CLIENT, CONFIG, INFO, QUIT, GEOADD, GEOHASH, GEOPOS, GEODIST, GEORADIUS, GEORADIUSBYMEMBER: every closure
+    signals every key whose logical content it changes -/
 theorem table4_signals : TableSignals table4Safe := table4Safe_signals
 
 /-- GEOADD (the API function behind the handler): whatever key's logical content changes is signalled -
@@ -830,6 +830,14 @@ theorem geoadd_signals_its_key (s : MState) (hp : s.pebble = true) (now : Int) (
     NodisVerif.Proofs.C09Writers.changed s (Handler4.geoAdd s now key items).1 k →
       k ∈ (Handler4.geoAdd s now key items).1.signalled :=
   (frame_geoAdd s hp now key items).sound k
+
+/-- `GEOADD key NX …` / `GEOADD key XX …` (the option word as argument 1) never reaches `execCommand`: the word
+    stays in front of the items and is parsed as a longitude (FINDINGS.md D-7). So the closures around `GeoAddNX`
+    / `GeoAddXX` - the former creates its key without signalling - are never built -/
+theorem geoadd_option_words_never_run (args : List Bytes) (h : opt args "NX" = 1 ∨ opt args "XX" = 1) (b : Body) :
+    Handler4.geoAddH args ≠ .exec b := NodisVerif.Proofs.GeoAddOpt.geoAddH_opt_not_exec args h b
+
+example : opt [[103], Bytes.ofString "nx", [49], [50], [109]] "NX" = 1 := by decide +kernel
 
 /-- the read commands of the GEO family never write: started as `runBody` starts every closure, they signal
     nothing, emit no change record, and leave every record logically as it was -/
